@@ -56,7 +56,7 @@ PROPS = {
                 suites={'K-build': None}, invs=[], scans=['purity']),
     'C15': dict(module='Daac.Props.C15', prop_ids=['C15'],
                 profiles=[('mixed', 400, 8), ('lm', 240, 4), ('nfb', 8, 8)],
-                suites={'K-build': None, 'K-trans': None}, invs=['CountInv']),
+                suites={'K-build': None, 'K-trans': None, 'K-stats': None}, invs=['CountInv']),
     'C16': dict(module='Daac.Props.C16', prop_ids=['C16'], custom='cli_check', profiles=[],
                 suites={'K-cli': None}, invs=[]),
 }
